@@ -215,6 +215,7 @@ def gen_library(rng, nfun=6):
         res = rng.choice(RESULTS)
         funcs.append(F("fn%d" % i if kind == "function" else "me%d" % i, ps, res, kind, rvalue=rng.choice([2, 9, 40])))
     decls, mdecls, hfun, hmeth, cpp = [], [], [], [], [CPP_HEAD]
+    sp = specials(rng)
     for f in funcs:
         ysig = "%s %s(%s)" % (result_cxx(f.result), f.name, ", ".join(yaml_param(p) for p in f.params))
         csig = "%s(%s)" % (f.name, ", ".join(cxx_param(p) for p in f.params))
@@ -231,9 +232,11 @@ def gen_library(rng, nfun=6):
                 body = body.replace("long acc = ", "long acc = v + ", 1)
             cpp.append("%s Thing::%s%s\n{\n%s\n}" % (result_cxx(f.result), csig, q, body))
     ydecl = [{"decl": "enum Color { RED, GREEN = 5, BLUE }"},
-             {"decl": "class Thing", "declarations": [{"decl": "Thing(int vv)"}, {"decl": "~Thing() +name(delete)"}, {"decl": "int get() const"}] + mdecls}] + decls
+             {"decl": "class Thing", "declarations": [{"decl": "Thing(int vv)"}, {"decl": "~Thing() +name(delete)"}, {"decl": "int get() const"}] + mdecls + sp["mdecls"]}] \
+        + decls + sp["decls"]
     lib = {"library": "eq", "cxx_header": "eq.hpp", "options": {"wrap_python": False, "wrap_lua": False}, "declarations": ydecl}
-    return {"lib": lib, "hpp": HPP_HEAD % "\n".join(hmeth) + "\n".join(hfun) + "\n", "cpp": "\n".join(cpp) + "\n", "funcs": funcs}
+    return {"lib": lib, "hpp": HPP_HEAD % "\n".join(hmeth + sp["hmeth"]) + "\n".join(hfun + sp["hpp"]) + "\n",
+            "cpp": "\n".join(cpp + ["#include <cstdlib>"] + sp["cpp"]) + "\n", "funcs": funcs, "specials": sp}
 
 
 SHOW_CPP = r'''// caller-side printing shared by all drivers (C, C++ and Fortran through bind(C))
@@ -333,6 +336,7 @@ def direct_driver(lib):
         b.append("    eq_end();")
         b.append("  }")
         out += b
+    out += lib.get("specials", {}).get("direct", [])
     out += ["  return 0;", "}"]
     return "\n".join(out) + "\n"
 
@@ -422,6 +426,7 @@ def c_driver(lib, protos):
         b.append("    eq_end();")
         b.append("  }")
         out += b
+    out += lib.get("specials", {}).get("c", [])
     out += ["  return 0;", "}"]
     return "\n".join(out) + "\n", missing
 
@@ -557,6 +562,9 @@ def f_driver(lib):
             body.append("    " + f_show(r, rn))
         body += post
         body.append("    call eq_end()")
+    sp = lib.get("specials", {})
+    decl += sp.get("f_decl", [])
+    body += sp.get("f_body", [])
     return "program viaf\n    use iso_c_binding\n    use eq_mod\n    implicit none\n" + F_IFACE + "\n".join(decl) + "\n" + "\n".join(body) + "\nend program viaf\n"
 
 
@@ -573,4 +581,76 @@ def trimmed_copy(lib):
             else:
                 ps.append(p)
         l2["funcs"].append(F(f.name, ps, f.result, f.kind, f.rvalue))
-    return l2
+    return l2          # (copy.copy keeps "specials")
+
+
+# ---------------------------------------------------------------- fixed-form extras: default arguments, templates, array results
+def specials(rng):
+    """declarations with default arguments (function, method, constructor-free), a function template with two instantiations and
+    array results (allocatable rank 1 and 2, pointer rank 1).  Returns dict(decls, mdecls, hpp, hmeth, cpp, direct, c, f_decl, f_body)."""
+    a, b, c = rng.choice([1, 5, -3]), rng.choice([2, 20]), rng.choice([3, 300])
+    v_i, v_d = rng.choice([4, -7, 21]), rng.choice([1.25, -0.5, 8.0])
+    n1, nr, nc = rng.choice([0, 1, 4]), rng.choice([1, 2, 3]), rng.choice([1, 2])
+    m_a, m_b = rng.choice([2, 6]), rng.choice([3, 9])
+    decls = [{"decl": "int defs(int a, int b = 10, int c = 100)"},
+             {"decl": "double defd(double x, double y = 0.0)"},
+             {"decl": "template<typename T> T twice(T v)", "cxx_template": [{"instantiation": "<int>"}, {"instantiation": "<double>"}]},
+             {"decl": "int *garr(int n) +dimension(n)+deref(allocatable)"},
+             {"decl": "int *gmat(int nr, int nc) +dimension(nr,nc)+deref(allocatable)"},
+             {"decl": "double *gptr(int n) +dimension(n)+deref(pointer)"}]
+    mdecls = [{"decl": "int addmul(int a, int b = 2)"}]
+    hpp = ["int defs(int a, int b = 10, int c = 100);", "double defd(double x, double y = 0.0);",
+           "void eq_trace_twice(double v);",
+           "template<typename T> T twice(T v) { eq_trace_twice((double)v); return (T)(v + v); }",
+           "int *garr(int n);", "int *gmat(int nr, int nc);", "double *gptr(int n);"]
+    hmeth = ["  int addmul(int a, int b = 2);"]
+    cpp = ['int defs(int a, int b, int c) { std::cout << "callee defs(" << a << "," << b << "," << c << ")\\n"; return a + b + c; }',
+           'double defd(double x, double y) { std::cout << "callee defd("; show(x); show(y); std::cout << ")\\n"; return x * 2.0 + y; }',
+           'void eq_trace_twice(double v) { std::cout << "callee twice("; show(v); std::cout << ")\\n"; }',
+           'static int gbuf[64]; static double dbuf[64];',
+           'int *garr(int n) { std::cout << "callee garr(" << n << ")\\n"; int *p = gbuf; for (int i = 0; i < n; ++i) p[i] = 10 + i; return p; }',
+           'int *gmat(int nr, int nc) { std::cout << "callee gmat(" << nr << "," << nc << ")\\n"; int *p = gbuf + 32; for (int i = 0; i < nr * nc; ++i) p[i] = 100 + i; return p; }',
+           'double *gptr(int n) { std::cout << "callee gptr(" << n << ")\\n"; for (int i = 0; i < n && i < 64; ++i) dbuf[i] = 0.5 * i; return dbuf; }',
+           'int Thing::addmul(int a, int b) { std::cout << "callee Thing::addmul(" << a << "," << b << ")\\n"; return (v + a) * b; }']
+
+    def dshow(label, expr, typ="int"):
+        return ["    { auto sp_r = %s; eq_begin(\"%s\"); %s eq_end(); }" % (expr, label, show_call(typ, "sp_r"))]
+    direct, cdrv, fdecl, fbody = [], [], [], []
+    # default arguments: every arity
+    direct += dshow("defs1", "defs(%d)" % a) + dshow("defs2", "defs(%d, %d)" % (a, b)) + dshow("defs3", "defs(%d, %d, %d)" % (a, b, c))
+    cdrv += dshow("defs1", "EQ_defs_0(%d)" % a) + dshow("defs2", "EQ_defs_1(%d, %d)" % (a, b)) + dshow("defs3", "EQ_defs_2(%d, %d, %d)" % (a, b, c))
+    direct += dshow("defd1", "defd(%r)" % v_d, "double") + dshow("defd2", "defd(%r, 0.75)" % v_d, "double")
+    cdrv += dshow("defd1", "EQ_defd_0(%r)" % v_d, "double") + dshow("defd2", "EQ_defd_1(%r, 0.75)" % v_d, "double")
+    direct += dshow("addmul1", "self.addmul(%d)" % m_a) + dshow("addmul2", "self.addmul(%d, %d)" % (m_a, m_b))
+    cdrv += dshow("addmul1", "EQ_Thing_addmul_0(&self_cap, %d)" % m_a) + dshow("addmul2", "EQ_Thing_addmul_1(&self_cap, %d, %d)" % (m_a, m_b))
+    # template instantiations
+    direct += dshow("twice_i", "twice<int>(%d)" % v_i) + dshow("twice_d", "twice<double>(%r)" % v_d, "double")
+    cdrv += dshow("twice_i", "EQ_twice_int(%d)" % v_i) + dshow("twice_d", "EQ_twice_double(%r)" % v_d, "double")
+    # array results (the C API returns the library's pointer)
+    for drv, call1, callm, callp in ((direct, "garr(%d)" % n1, "gmat(%d, %d)" % (nr, nc), "gptr(%d)" % max(n1, 2)),
+                                     (cdrv, "EQ_garr(%d)" % n1, "EQ_gmat(%d, %d)" % (nr, nc), "EQ_gptr(%d)" % max(n1, 2))):
+        drv += ["    { int *r = %s; eq_begin(\"garr\"); eq_int(%d); for (int i = 0; i < %d; ++i) eq_int(r[i]); eq_end(); }" % (call1, n1, n1),
+                "    { int *r = %s; eq_begin(\"gmat\"); eq_int(%d); for (int i = 0; i < %d; ++i) eq_int(r[i]); eq_end(); }" % (callm, nr * nc, nr * nc),
+                "    { double *r = %s; eq_begin(\"gptr\"); eq_int(%d); for (int i = 0; i < %d; ++i) eq_double(r[i]); eq_end(); }" % (callp, max(n1, 2), max(n1, 2))]
+    fdecl += ["    integer(C_INT), allocatable :: sp_a1(:), sp_a2(:,:)", "    real(C_DOUBLE), pointer :: sp_p1(:)", "    integer :: sp_i, sp_j"]
+
+    def fshow(label, stmt):
+        return ["    call eq_begin(\"%s\"//C_NULL_CHAR)" % label, "    " + stmt, "    call eq_end()"]
+    fbody += ["    sp_i = defs(%d_C_INT)" % a] + fshow("defs1", f_show("int", "sp_i"))
+    fbody += ["    sp_i = defs(%d_C_INT, %d_C_INT)" % (a, b)] + fshow("defs2", f_show("int", "sp_i"))
+    fbody += ["    sp_i = defs(%d_C_INT, %d_C_INT, %d_C_INT)" % (a, b, c)] + fshow("defs3", f_show("int", "sp_i"))
+    fdecl += ["    real(C_DOUBLE) :: sp_d"]
+    fbody += ["    sp_d = defd(%r_C_DOUBLE)" % v_d] + fshow("defd1", f_show("double", "sp_d"))
+    fbody += ["    sp_d = defd(%r_C_DOUBLE, 0.75_C_DOUBLE)" % v_d] + fshow("defd2", f_show("double", "sp_d"))
+    fbody += ["    sp_i = self%%addmul(%d_C_INT)" % m_a] + fshow("addmul1", f_show("int", "sp_i"))
+    fbody += ["    sp_i = self%%addmul(%d_C_INT, %d_C_INT)" % (m_a, m_b)] + fshow("addmul2", f_show("int", "sp_i"))
+    fbody += ["    sp_i = twice_int(%d_C_INT)" % v_i] + fshow("twice_i", f_show("int", "sp_i"))
+    fbody += ["    sp_d = twice_double(%r_C_DOUBLE)" % v_d] + fshow("twice_d", f_show("double", "sp_d"))
+    fbody += ["    sp_a1 = garr(%d_C_INT)" % n1, "    call eq_begin(\"garr\"//C_NULL_CHAR)", "    call eq_int(int(size(sp_a1), C_LONG))",
+              "    do sp_i = 1, size(sp_a1)", "        call eq_int(int(sp_a1(sp_i), C_LONG))", "    end do", "    call eq_end()"]
+    fbody += ["    sp_a2 = gmat(%d_C_INT, %d_C_INT)" % (nr, nc), "    call eq_begin(\"gmat\"//C_NULL_CHAR)", "    call eq_int(int(size(sp_a2), C_LONG))",
+              "    do sp_j = 1, size(sp_a2, 2)", "    do sp_i = 1, size(sp_a2, 1)", "        call eq_int(int(sp_a2(sp_i, sp_j), C_LONG))", "    end do", "    end do",
+              "    call eq_end()"]
+    fbody += ["    sp_p1 => gptr(%d_C_INT)" % max(n1, 2), "    call eq_begin(\"gptr\"//C_NULL_CHAR)", "    call eq_int(int(size(sp_p1), C_LONG))",
+              "    do sp_i = 1, size(sp_p1)", "        call eq_double(sp_p1(sp_i))", "    end do", "    call eq_end()"]
+    return {"decls": decls, "mdecls": mdecls, "hpp": hpp, "hmeth": hmeth, "cpp": cpp, "direct": direct, "c": cdrv, "f_decl": fdecl, "f_body": fbody}
